@@ -17,7 +17,11 @@ import (
 
 func (fc *FnCtx) resetComplete(st *State) {
 	ct := fc.contract
-	if ct == nil || ct.FieldsOf == "" || fc.decl == nil || fc.decl.Recv == nil || len(fc.decl.Recv.List) == 0 {
+	if ct == nil || ct.FieldsOf == "" || fc.decl == nil {
+		return
+	}
+	if fc.decl.Recv == nil || len(fc.decl.Recv.List) == 0 || recvTypeName(fc.decl.Recv.List[0].Type) != ct.FieldsOf {
+		fc.resetCompleteByType(st)
 		return
 	}
 	obj := fc.pkg.Types.Scope().Lookup(ct.FieldsOf)
@@ -142,6 +146,68 @@ func (fc *FnCtx) resetComplete(st *State) {
 		own.pc = fc.definePC(and(st.pc, fc.fresh("rc", SBool)))
 		fc.assert(own, "reset-complete", "reset-complete["+f+"]", goal, fc.decl.Pos(),
 			"field "+f+" of "+ct.FieldsOf+" is written by "+fc.name+" (or by a method it calls on the receiver), or classified `kept`")
+	}
+	fc.assumptions["reset-complete obligations are decided structurally (which fields are written), not by the solver"] = true
+}
+
+// resetCompleteByType: the same obligation for a function that is not a method of T (a pool "acquire" that re-points a
+// recycled object): a field counts as written when the function assigns `x.f` for some expression x of type T or *T
+// (decided by the type checker, so a variable of another type that happens to have the same name does not count).
+func (fc *FnCtx) resetCompleteByType(st *State) {
+	ct := fc.contract
+	obj := fc.pkg.Types.Scope().Lookup(ct.FieldsOf)
+	if obj == nil {
+		panic(unsupported("fields " + ct.FieldsOf + ": no such type"))
+	}
+	stt, ok := obj.Type().Underlying().(*types.Struct)
+	if !ok {
+		panic(unsupported("fields " + ct.FieldsOf + ": not a struct"))
+	}
+	touched := map[string]bool{}
+	isT := func(e ast.Expr) bool {
+		t := fc.typeOf(e)
+		if t == nil {
+			return false
+		}
+		if p, ok := t.Underlying().(*types.Pointer); ok {
+			t = p.Elem()
+		}
+		return typeName(t) == ct.FieldsOf
+	}
+	ast.Inspect(fc.decl.Body, func(n ast.Node) bool {
+		switch x := n.(type) {
+		case *ast.AssignStmt:
+			for _, l := range x.Lhs {
+				if se, ok := l.(*ast.SelectorExpr); ok && isT(se.X) {
+					touched[se.Sel.Name] = true
+				}
+			}
+		case *ast.IncDecStmt:
+			if se, ok := x.X.(*ast.SelectorExpr); ok && isT(se.X) {
+				touched[se.Sel.Name] = true
+			}
+		}
+		return true
+	})
+	var names []string
+	for i := 0; i < stt.NumFields(); i++ {
+		names = append(names, stt.Field(i).Name())
+	}
+	sort.Strings(names)
+	for _, f := range names {
+		if f == "_" || f == "noCopy" {
+			continue
+		}
+		cls := ct.Classes[f]
+		ok := touched[f] || (len(cls) >= 4 && cls[:4] == "kept")
+		goal := T{"(= 0 0)", SBool}
+		if !ok {
+			goal = T{"(= 0 1)", SBool}
+		}
+		own := st.clone()
+		own.pc = fc.definePC(and(st.pc, fc.fresh("rc", SBool)))
+		fc.assert(own, "reset-complete", "reset-complete["+f+"]", goal, fc.decl.Pos(),
+			"field "+f+" of a recycled "+ct.FieldsOf+" is assigned by "+fc.name+", or classified `kept`")
 	}
 	fc.assumptions["reset-complete obligations are decided structurally (which fields are written), not by the solver"] = true
 }
